@@ -13,6 +13,8 @@ import NutsModel.C19.Iblt
 import NutsModel.C19.Callback
 import NutsModel.C19.StatusList
 import NutsModel.C19.DidKey
+import NutsModel.C19.DidWeb
+import NutsModel.C19.Ambassador
 namespace Nuts.C19.Sites
 open Nuts
 
@@ -373,8 +375,8 @@ def expected : List (String × List Entry) := [
     ⟨"nilcheck:ecKey.X == nil", .sampled "didjwk.Resolve"⟩,
     ⟨"nilcheck:ecKey.Y == nil", .sampled "didjwk.Resolve"⟩]),
   ("vdr/didweb/web.go:Resolver.Resolve", [
-    ⟨"lencheck:len(baseURL.Path) == 0", .sampled "didweb.Resolve"⟩,
-    ⟨"guardcall:resolver.RejectNullKeyEntries", .sampled "didweb.Resolve"⟩]),
+    ⟨"lencheck:len(baseURL.Path) == 0", .total "test (model: DidWeb.requestPath)"⟩,
+    ⟨"guardcall:resolver.RejectNullKeyEntries", .total "guard of document.UnmarshalJSON (Cfg.nullGuard); without it: site Resolve>did.Document.UnmarshalJSON (go-did dereferences null key entries)"⟩]),
   ("vcr/credential/util.go:ResolveSubjectDID", [
     ⟨"range:credentials", .sampled "credential.vp / credential.vc"⟩,
     ⟨"deref:*sid", .sampled "credential.vp / credential.vc"⟩,
@@ -510,7 +512,24 @@ def expected : List (String × List Entry) := [
     ⟨"assert:envelope.Message.(*Envelope_TransactionSet)", .sampled "v2.Handle"⟩,
     ⟨"discard:p.state.IBLT(minLC)", .sampled "v2.Handle"⟩,
     ⟨"discard:p.state.XOR(dag.MaxLamportClock)", .sampled "v2.Handle"⟩,
-    ⟨"lencheck:len(missing) > 0", .sampled "v2.Handle"⟩])]
+    ⟨"lencheck:len(missing) > 0", .sampled "v2.Handle"⟩]),
+  ("vdr/didweb/util.go:DIDToURL", [
+    ⟨"slice:id.ID[:subpathIdx]", .total "under subpathIdx != -1, subpathIdx = strings.Index(id.ID, \":\") <= len (model: DidWeb.splitColon)"⟩,
+    ⟨"slice:id.ID[subpathIdx:]", .total "under subpathIdx != -1, subpathIdx = strings.Index(id.ID, \":\") <= len (model: DidWeb.splitColon)"⟩,
+    ⟨"nilcheck:parsedIP != nil", .total "test of the result of net.ParseIP"⟩]),
+  ("vdr/didweb/util.go:percentDecodeString", [
+    ⟨"for:i < len(s)", .total "i strictly increases (i++ and i += 2): model recursion on the remaining bytes (didweb_percent_decode_length)"⟩,
+    ⟨"lencheck:i + 2 < len(s)", .total "guard of the slice (Cfg.sliceGuard = some 2); weaker or absent: site percentDecodeString:s[i:i+3]"⟩,
+    ⟨"index:s[i]", .total "under the loop condition i < len(s)"⟩,
+    ⟨"slice:s[i:i + 3]", .site "percentDecodeString:s[i:i+3]"⟩,
+    ⟨"index:s[i]", .total "under the loop condition i < len(s)"⟩]),
+  ("vdr/didweb/util.go:percentDecodeChar", [
+    ⟨"lencheck:len(encoded) != 3", .total "guard of the three index expressions (Cfg.charLenGuard)"⟩,
+    ⟨"index:encoded[0]", .site "percentDecodeChar:encoded[0]"⟩,
+    ⟨"index:encoded[1]", .site "percentDecodeChar:encoded[1]"⟩,
+    ⟨"index:encoded[2]", .site "percentDecodeChar:encoded[2]"⟩]),
+  ("vdr/didweb/util.go:isHex", []),
+  ("vdr/didweb/util.go:unhex", [])]
 
 def expectedOps : List (String × List String) := expected.map fun p => (p.1, p.2.map (·.go))
 
@@ -541,6 +560,40 @@ def statusListCfg : StatusList.Cfg :=
 
 def didKeyCfg : DidKey.Cfg :=
   { emptyGuard := has "vdr/didkey/resolver.go:Resolver.Resolve" "lencheck:len(encodedKey) == 0" }
+
+/-- the guard in front of `s[i : i+3]` as the source spells it today -/
+def didWebSliceGuard : Option Nat :=
+  match Facts.C19.didwebSliceGuards.head? with
+  | some "s[i] == '%' && i + 2 < len(s)" => some 2
+  | some "s[i] == '%' && i + 1 < len(s)" => some 1
+  | some "s[i] == '%' && i + 3 < len(s)" => some 3
+  | some "s[i] == '%' && i < len(s)" => some 0
+  | _ => none
+
+def didWebCfg : DidWeb.Cfg :=
+  { sliceGuard := didWebSliceGuard
+    charLenGuard := has "vdr/didweb/util.go:percentDecodeChar" "lencheck:len(encoded) != 3"
+    decodeSet := Facts.C19.didwebDecodeSet
+    contentTypes := Facts.C19.didwebContentTypes
+    nullGuard := has "vdr/didweb/web.go:Resolver.Resolve" "guardcall:resolver.RejectNullKeyEntries" }
+
+def ambassadorCfg : Ambassador.Cfg :=
+  { nullGuard := Facts.C19.didDocUnmarshals.contains
+      "vdr/didnuts/ambassador.go:ambassador.callback:json.Unmarshal(payload, &nextDIDDocument):after-RejectNullKeyEntries" }
+
+/-- what is known about every place that unmarshals bytes into a did.Document: `true` = the bytes come from a peer / a remote
+    server, the null-entry check MUST precede; `false` = bytes the node (or its operator's CLI) produced itself -/
+def docUnmarshalSites : List (String × Bool) := [
+  ("storage/orm/did_document.go:DidDocument.ToDIDDocument:json.Unmarshal([]byte(sqlDoc.Raw), &document)", false),
+  ("storage/orm/did_document.go:MigrationDocument.ToORMDocument:json.Unmarshal(migration.Raw, doc)", false),
+  ("vdr/api/v1/client.go:readDIDDocument:json.Unmarshal(data, &document)", false),
+  ("vdr/cmd/cmd.go:updateCmd:json.Unmarshal(bytes, &didDoc)", false),
+  ("vdr/didnuts/ambassador.go:ambassador.callback:json.Unmarshal(payload, &nextDIDDocument)", true),
+  ("vdr/didnuts/didstore/reader.go:readDocument:json.Unmarshal(documentBytes, &document)", false),
+  ("vdr/didweb/web.go:Resolver.Resolve:document.UnmarshalJSON(data)", true)]
+
+def expectedDocUnmarshals : List String :=
+  docUnmarshalSites.map fun p => p.1 ++ (if p.2 then ":after-RejectNullKeyEntries" else ":UNGUARDED")
 
 def ibltCfg : Iblt.Cfg :=
   { k := Facts.C19.ibltK
